@@ -61,3 +61,22 @@ seed(55, "parallel decrypt accepts partial blocks (size % B check dropped)", ["C
       "    /* Validate the parameters */\n    if (!ecb || !ecb->ctx)\n        return 0;\n    ks = ecb->ctx;\n\n    /* Process major blocks with the vectorized back end */\n    vtable = ecb->vtable;\n    if (vtable) {\n        size_t psize = ecb->parallel_size;\n        while (size >= psize) {\n            (*(vtable->decrypt))"))
 seed(56, "mantis_set_key rejects rounds == 8 (valid call rejected)", ["C14.R5", "C14.R2", "C10.R1"],
      ("src/mantis-cipher.c", "            rounds > MANTIS_MAX_ROUNDS)", "            rounds >= MANTIS_MAX_ROUNDS)"))
+
+seed(40, "cascade order swapped in skinny128_ctr_init (256-bit test before the 128-bit one)", ["C13.R1"],
+     ("src/skinny128-ctr.c", "    if (_skinny_has_vec128())\n        vtable = &_skinny128_ctr_vec128;\n    if (_skinny_has_vec256())\n        vtable = &_skinny128_ctr_vec256;",
+      "    if (_skinny_has_vec256())\n        vtable = &_skinny128_ctr_vec256;\n    if (_skinny_has_vec128())\n        vtable = &_skinny128_ctr_vec128;"))
+seed(41, "-mavx2 added to COMMON_CFLAGS (every object may contain VEX code)", ["C13.R4"],
+     ("options.mak", "COMMON_CFLAGS = -O3 -Wall -Wextra", "COMMON_CFLAGS = -O3 -Wall -Wextra -mavx2"))
+seed(26, "parallel_size = 4*B kept when the vec256 vtable is chosen", ["C13.R6", "C07.R2"],
+     ("src/skinny128-parallel.c", "        ecb->vtable = &skinny128_parallel_ecb_vec256;\n        ecb->parallel_size = 8 * SKINNY128_BLOCK_SIZE;", "        ecb->vtable = &skinny128_parallel_ecb_vec256;"))
+seed(51, "D5 re-introduced: __cpuid(7) without sub-leaf", ["C13.R2"],
+     ("src/skinny-internal.c", "    __cpuid_count(7, 0, eax, ebx, ecx, edx);", "    __cpuid(7, eax, ebx, ecx, edx);"))
+seed(57, "OS-state test dropped from the AVX2 probe", ["C13.R2"],
+     ("src/skinny-internal.c", "    if ((eax & 0x06) != 0x06)\n        return 0;   /* XMM and YMM state are not enabled in XCR0 */\n", ""))
+seed(58, "mantis parallel init selects the vec128 table unconditionally", ["C13.R1"],
+     ("src/mantis-parallel.c", "    if (_skinny_has_vec128())\n        ecb->vtable = &mantis_parallel_ecb_vec128;", "    ecb->vtable = &mantis_parallel_ecb_vec128;"))
+seed(59, "skinny64 ctr init picks the vec128 table when the probe says no (inverted test)", ["C13.R1"],
+     ("src/skinny64-ctr.c", "    if (_skinny_has_vec128())\n        vtable = &_skinny64_ctr_vec128;", "    if (!_skinny_has_vec128())\n        vtable = &_skinny64_ctr_vec128;"))
+seed(60, "vec256 units lose -mavx2 (stub tables) while the probe still reports AVX2", ["C13.R3"],
+     ("src/Makefile", "skinny128-ctr-vec256.o: skinny128-ctr-vec256.c ../include/skinny128-cipher.h \\\n                    skinny-internal.h skinny128-ctr-internal.h\n\t$(CC) $(VEC256_CFLAGS) $(CFLAGS) -c -o $@ $<",
+      "skinny128-ctr-vec256.o: skinny128-ctr-vec256.c ../include/skinny128-cipher.h \\\n                    skinny-internal.h skinny128-ctr-internal.h\n\t$(CC) $(CFLAGS) -c -o $@ $<"))
